@@ -1,9 +1,16 @@
 import ScrutModel.Lemmas.Exec
+import ScrutModel.Lemmas.TestRunProps
 /-!
 # C20 — Every test runs once, in order; exit status 0 / 50 / 1
 
 The runner is called once per test case, for indices `0, 1, 2, …` in this order (the recorded
 `limits` list has one entry per call). `runDocument` yields the reported outcomes.
+
+The second half (`C20_integrated_…`, `C20_document_…`, `C20_script_…`) states the property about the
+INTEGRATED model of `scrut test` (`Model/TestRun.lean`: bytes of the document → parser →
+configuration → rules → executor → validation → exit status), which the correspondence streams
+`e2e-testdoc`, `e2e-testcram`, `e2e-testdoc-cram-compat` tie to the binary: for every document and
+every list of completed runs.
 -/
 namespace Scrut.Props.C20
 open Scrut.Exec
@@ -62,5 +69,136 @@ theorem C20_assemble (p o a : List TC) (i : Nat) :
 example : exitStatus [some [(0, .ok)], some [(0, .ok), (1, .malformed)]] = 50 := by decide
 example : exitStatus [some [(0, .ok)], none] = 1 := by decide
 example : exitStatus [some [(0, .ok), (1, .skipped)]] = 0 := by decide
+
+/-! ## through the composition: `scrut test` on one document (`Model/TestRun.lean`) -/
+
+section Integrated
+open Scrut.TestRun
+
+/-- **C20, integrated** (`runTests`: the prepared tests of a document and the completed runs of
+their commands): every test case gets exactly one result, in document order (in the covered
+fragment no test is detached); the exit status is 50 iff some verdict is a failure, 0 iff none is,
+never 1. -/
+theorem C20_integrated_one_result {tests : List Test} {runs : List Ran} {outcomes : List Outcome}
+    {status : Nat} (h : runTests tests runs = .report outcomes status) :
+    outcomes.map (·.1) = List.range tests.length ∧
+    (status = 50 ↔ ∃ o ∈ outcomes, isFailure o.2 = true) ∧
+    (status = 0 ↔ ∀ o ∈ outcomes, isFailure o.2 = false) ∧
+    status ≠ 1 :=
+  runTests_one_result h
+
+/-- **C20, integrated, from the bytes of the document**: a report has one result per test case of
+the PARSED document, in document order, and the exit status 0 / 50 of its verdicts. -/
+theorem C20_document_one_result {bytes : Bytes} {runs : List Ran} {outcomes : List Outcome}
+    {status : Nat} (h : testDocumentBytes bytes runs = .report outcomes status) :
+    ∃ text p tests, readFile bytes = .ok text ∧ Markdown.parseMarkdown parseEnv text = .ok p ∧
+      p.tests.mapM prepare = .ok tests ∧
+      outcomes.map (·.1) = List.range p.tests.length ∧
+      (status = 50 ↔ ∃ o ∈ outcomes, isFailure o.2 = true) ∧
+      (status = 0 ↔ ∀ o ∈ outcomes, isFailure o.2 = false) ∧
+      status ≠ 1 :=
+  testDocumentBytes_one_result h
+
+/-- … and from the text of the document (`testDocument`, behind `read_file`) -/
+theorem C20_text_one_result {text : List Char} {runs : List Ran} {outcomes : List Outcome}
+    {status : Nat} (h : testDocument text runs = .report outcomes status) :
+    ∃ p tests, Markdown.parseMarkdown parseEnv text = .ok p ∧ p.tests.mapM prepare = .ok tests ∧
+      outcomes.map (·.1) = List.range p.tests.length ∧
+      (status = 50 ↔ ∃ o ∈ outcomes, isFailure o.2 = true) ∧
+      (status = 0 ↔ ∀ o ∈ outcomes, isFailure o.2 = false) ∧
+      status ≠ 1 :=
+  testDocument_one_result h
+
+/-- **the lifting**: the report on the bytes of a document is the report of `runTests` on the
+document's prepared tests (`DocTests bytes tests`: readable, parsed, harmless front-matter, every
+test case inside the composition) -/
+theorem C20_document_report_iff (bytes : Bytes) (runs : List Ran) (outcomes : List Outcome)
+    (status : Nat) :
+    testDocumentBytes bytes runs = .report outcomes status ↔
+      ∃ tests, DocTests bytes tests ∧ runTests tests runs = .report outcomes status :=
+  testDocumentBytes_report_iff bytes runs outcomes status
+
+/-- **which result on which path** (`runTests`): too few runs are `missingRun`; otherwise there IS a
+report -- the composition is total on prepared tests: no crash, never `unsupported` (every rule
+decides every line: the lossy decoder never runs out of fuel, `render_output` never panics) -/
+theorem C20_integrated_result_kinds (tests : List Test) (runs : List Ran) :
+    (runs.length < tests.length → runTests tests runs = .missingRun) ∧
+    (tests.length ≤ runs.length → ∃ outcomes status, runTests tests runs = .report outcomes status) :=
+  runTests_kinds tests runs
+
+/-- **which result on which path** (document): `parseError` (exit status 1, nothing reported)
+exactly when the bytes are not UTF-8 after CR LF → LF or the Markdown parser rejects the text; such
+a document never yields a report -/
+theorem C20_document_parse_error_iff (bytes : Bytes) (runs : List Ran) :
+    testDocumentBytes bytes runs = .parseError ↔
+      readFile bytes = .error .notUtf8 ∨
+      ∃ text e, readFile bytes = .ok text ∧ Markdown.parseMarkdown parseEnv text = .error e :=
+  testDocumentBytes_parseError_iff bytes runs
+
+/-- **`scrut test` on one document in closed form**: given a run for every test the report is
+`expectedOutcomes` (every test `skipped` if some test ended with its skip code, otherwise test `i`
+with `verdict tests[i] runs[i]`) and the exit status of these verdicts -/
+theorem C20_document_closed_form {bytes : Bytes} {tests : List Test} (runs : List Ran)
+    (hd : DocTests bytes tests) (hlen : tests.length ≤ runs.length) :
+    testDocumentBytes bytes runs = .report (expectedOutcomes tests runs)
+      (if (expectedOutcomes tests runs).any (fun o => isFailure o.2) then 50 else 0) :=
+  testDocumentBytes_eq runs hd hlen
+
+/-- … the same for `runTests` -/
+theorem C20_integrated_closed_form (tests : List Test) (runs : List Ran)
+    (hlen : tests.length ≤ runs.length) :
+    runTests tests runs = .report (expectedOutcomes tests runs)
+      (if (expectedOutcomes tests runs).any (fun o => isFailure o.2) then 50 else 0) :=
+  runTests_eq tests runs hlen
+
+/-- **C20, single-script executor** (`runScript`: Cram documents and `--cram-compat`): one result
+per test case, in document order; exit status 0 / 50 -/
+theorem C20_script_one_result {tests : List Test} {runs : List SRan} {outcomes : List Outcome}
+    {status : Nat} (h : runScript tests runs = .report outcomes status) :
+    outcomes.map (·.1) = List.range tests.length ∧
+    (status = 50 ↔ ∃ o ∈ outcomes, isFailure o.2 = true) ∧
+    (status = 0 ↔ ∀ o ∈ outcomes, isFailure o.2 = false) ∧
+    status ≠ 1 :=
+  runScript_one_result h
+
+/-- … from the bytes of a Cram document -/
+theorem C20_cram_document_one_result {bytes : Bytes} {runs : List SRan} {outcomes : List Outcome}
+    {status : Nat} (h : testCramDocumentBytes bytes runs = .report outcomes status) :
+    ∃ text pre ts, readFile bytes = .ok text ∧ Cram.parseCram expOk 2 text = .ok (pre, ts) ∧
+      outcomes.map (·.1) = List.range ts.length ∧
+      (status = 50 ↔ ∃ o ∈ outcomes, isFailure o.2 = true) ∧
+      (status = 0 ↔ ∀ o ∈ outcomes, isFailure o.2 = false) ∧
+      status ≠ 1 :=
+  testCramDocumentBytes_one_result h
+
+/-- … from the bytes of a Markdown document under `--cram-compat` -/
+theorem C20_compat_document_one_result {bytes : Bytes} {runs : List SRan}
+    {outcomes : List Outcome} {status : Nat}
+    (h : testDocumentCompatBytes bytes runs = .report outcomes status) :
+    ∃ text p, readFile bytes = .ok text ∧ Markdown.parseMarkdown parseEnv text = .ok p ∧
+      outcomes.map (·.1) = List.range p.tests.length ∧
+      (status = 50 ↔ ∃ o ∈ outcomes, isFailure o.2 = true) ∧
+      (status = 0 ↔ ∀ o ∈ outcomes, isFailure o.2 = false) ∧
+      status ≠ 1 :=
+  testDocumentCompatBytes_one_result h
+
+/-! Non-vacuity, evaluated by the kernel from the BYTES of a document with two test cases (`exBytes`:
+one `equal` expectation on stdout; `{output_stream: stderr}`, a glob and an optional expectation,
+`[3]`): all pass / the second one's output is wrong / the bytes are not UTF-8 / the parser rejects
+the text; `exTests` are its prepared tests. -/
+example : testDocumentBytes exBytes exRuns = .report [(0, .ok), (1, .ok)] 0 := ex_report
+example : testDocumentBytes exBytes exRunsBad = .report [(0, .ok), (1, .malformed)] 50 := ex_report_bad
+example : DocTests exBytes exTests := ex_docTests
+example : runTests exTests exRuns = .report [(0, .ok), (1, .ok)] 0 := ex_runTests
+example : testDocumentBytes [0x23, 0xff] [] = .parseError := ex_not_utf8
+example : testDocumentBytes (Utf8.utf8 "```scrut\nfoo\n```\n".toList) [] = .parseError := ex_parse_error
+/-- a Cram document with two test cases, the second ends with 0 instead of 1; a Markdown document
+under `--cram-compat` -/
+example : testCramDocumentBytes exCramBytes exCramRuns = .report [(0, .ok), (1, .invalidExit 0 1)] 50 :=
+  ex_cram_report
+example : testDocumentCompatBytes (Utf8.utf8 "# t\n\n```scrut\n$ echo a\na\n```\n".toList)
+    [⟨⟨[97, 10], [], 0⟩, false⟩] = .report [(0, .ok)] 0 := ex_compat_report
+
+end Integrated
 
 end Scrut.Props.C20
